@@ -1,27 +1,21 @@
-(* Proofs/C08Gen3.v — wave 4: the translator-GENERATED ktensor.update (Gen/GenKtensor4.v, regenerated from /repo/pyttb/ktensor.py
-   on every run) computes C08's hand model k_update (Model/C08Kruskal.v: firstn / skipn recursion over the listed modes).
-   Route: update_bridge (w4-translator, Proofs/W4KtensorVec.v): ktensor_update = H_update (a fold with a read position into the
-   data vector, chunks taken by Python slices, np.reshape(order="F"));  here: H_update_loop = k_update_loop on the shared record.
-   Hence C08_update_all_modes / C08_update_frame speak about the generated code. *)
+(* Proofs/C08Gen3.v — wave 4/5: the translator-GENERATED ktensor.update (Gen/GenKtensor4.v, regenerated from /repo/pyttb/ktensor.py
+   on every run; two passes since /repo b9311d6) IS C08's state machine py_update (Model/C08Update.v): it answers Ok exactly on the
+   requests py_update accepts, with the same receiver, and Err exactly on those py_update rejects — where py_update leaves the receiver
+   untouched (Proofs/C08Update.v).  Hence it computes the functional hand model k_update (Model/C08Kruskal.v).
+   Route: update_bridge (w5-translator, Proofs/W4KtensorVec.v): ktensor_update = H_update (strict guard [asc], pass 1 [H_needed], a fold
+   with a read position into the data vector, chunks taken by Python slices, np.reshape(order="F"));  here: H_needed = py_needed,
+   H_update_loop = py_update_loop on the shared record.  C08_update_all_modes / C08_update_frame / C08_update_rejected_unchanged therefore
+   speak about the generated code. *)
 From Coq Require Import List ZArith Arith Bool Lia.
 From PV Require Import Base.Index Base.Perm Base.Sum Np.NpZ Np.NpZ2 Np.NpZ3 Np.NpZ3c Np.NpZ3d Np.NpZ3e Np.NpZ4 Proofs.NpZProofs
-  Proofs.W3Bridge Model.Repr Model.C08Kruskal Model.W4Ktensor Model.W4KtensorVec Proofs.W4Slices Proofs.W4KtensorVec Gen.GenKtensor4
-  Proofs.C08Gen Proofs.C08Vec.
+  Proofs.W3Bridge Model.Repr Model.C08Kruskal Model.C08Update Model.W4Ktensor Model.W4KtensorVec Proofs.W4Slices Proofs.W4KtensorVec Gen.GenKtensor4
+  Proofs.C08Gen Proofs.C08Vec Proofs.C08Update Model.C08Inst.
 Import ListNotations.
 Local Open Scope Z_scope.
-
-(* a Python mode of update(): -1 = the weights, k >= 0 = factor k *)
-Definition mopt (k : Z) : option nat := if k =? -1 then None else Some (Z.to_nat k).
 
 Lemma chunk_firstn (data : vec) (loc n : Z) : 0 <= loc -> 0 <= n -> loc + n <= zlen data ->
   H_chunk data loc (loc + n) = firstn (Z.to_nat n) (skipn (Z.to_nat loc) data).
 Proof. intros H1 H2 H3. unfold H_chunk. rewrite py_slice_in by lia. do 2 f_equal. lia. Qed.
-
-Lemma skipn_add {A} (l : list A) (a b : Z) : 0 <= a -> 0 <= b -> skipn (Z.to_nat (a + b)) l = skipn (Z.to_nat b) (skipn (Z.to_nat a) l).
-Proof.
-  intros Ha Hb. rewrite Z2Nat.inj_add by lia. generalize (Z.to_nat a) (Z.to_nat b). clear. intros a b. revert l.
-  induction a as [|a IH]; intros l; [reflexivity|]. destruct l as [|x l]; cbn [Nat.add skipn]; [now destruct b|apply IH].
-Qed.
 
 Lemma reshapeF_unvec (chunk : vec) (m R : nat) :
   np_reshape2 OrdF chunk (Z.of_nat m) (Z.of_nat R) = unvec_factor 0 m R chunk.
@@ -33,61 +27,135 @@ Qed.
 Lemma nrows_nth (fs : list (list (list Z))) (k : nat) : nth k (map (@nrows Z) fs) 0%nat = length (nth k fs []).
 Proof. revert k. induction fs as [|f fs IH]; intros [|k]; cbn; auto. Qed.
 
-Lemma update_loop_model (data : vec) : forall (ms : vec) (s : ktz) (loc : Z) (st' : ktz * Z),
-  (forall k, In k ms -> -1 <= k) -> 0 <= loc <= zlen data ->
-  H_update_loop data ms (s, loc) = Ok st' ->
-  to_K (fst st') = k_update_loop 0 (map mopt ms) (skipn (Z.to_nat loc) data) (to_K s).
+(* the strict guard of the hand reference is the guard of the state machine (same recursion) *)
+Lemma asc_is_strict (l : vec) : asc l = py_strict_asc l.
+Proof. reflexivity. Qed.
+
+(* ---------------------------------------------------------------- pass 1 *)
+Lemma needed_model (self : ktz) : forall (ms : vec) (n : nat),
+  H_needed self ms (Z.of_nat n) = match py_needed (to_K self) ms n with Some t => Ok (Z.of_nat t) | None => Err end.
 Proof.
-  induction ms as [|k ms IH]; intros s loc st' Hms Hloc E; cbn [H_update_loop map k_update_loop] in *.
-  - injection E as <-. reflexivity.
-  - assert (Hk : -1 <= k) by (apply Hms; now left).
-    assert (Hms' : forall k, In k ms -> -1 <= k) by (intros; apply Hms; now right).
-    unfold H_update_step in E. cbn [fst snd] in E. unfold mopt at 1.
-    set (R := length (kt_weights s)) in *.
-    assert (HR : zlen (kt_weights s) = Z.of_nat R) by reflexivity. rewrite HR in E.
-    destruct (Z.eqb_spec k (-1)) as [E1|E1].
-    + (* the weights *)
-      destruct (Z.ltb_spec (zlen data) (loc + Z.of_nat R)) as [|Hle]; [discriminate|]. cbn [bind] in E.
-      rewrite chunk_firstn in E by lia. rewrite Nat2Z.id in E.
-      assert (Hloc' : 0 <= loc + Z.of_nat R <= zlen data) by lia.
-      rewrite (IH _ _ _ Hms' Hloc' E). unfold to_K at 1. cbn [kt_set_weights kt_weights kt_factors].
-      unfold krank, to_K. cbn [kweights kfactors]. fold R. f_equal. rewrite (skipn_add data loc (Z.of_nat R)) by lia. now rewrite Nat2Z.id.
-    + (* factor k >= 0 *)
-      assert (Hk0 : 0 <= k) by lia.
-      destruct (Z.ltb_spec k (zlen (kt_factors s))) as [Hlt|]; [|discriminate].
-      destruct (idx_ok (kt_factors s) k); [|discriminate].
-      set (kn := Z.to_nat k). assert (Hkn : (kn < length (kt_factors s))%nat) by (unfold zlen in Hlt; lia).
-      assert (Ek : k = Z.of_nat kn) by (unfold kn; lia).
-      set (mn := length (nth kn (kt_factors s) [])).
-      assert (Hm : np_nrows (znth [] (kt_factors s) k) = Z.of_nat mn) by (rewrite Ek, znth_nat; reflexivity).
-      rewrite Hm in E. rewrite <- Nat2Z.inj_mul in E.
-      destruct (Z.ltb_spec (zlen data) (loc + Z.of_nat (mn * R))) as [|Hle]; [discriminate|].
-      rewrite chunk_firstn in E by lia. rewrite Nat2Z.id in E.
-      destruct (np_reshape2_ok _ _ _); [|discriminate]. cbn [bind] in E.
-      rewrite reshapeF_unvec in E.
-      assert (Hloc' : 0 <= loc + Z.of_nat (mn * R) <= zlen data) by lia.
-      rewrite (IH _ _ _ Hms' Hloc' E). unfold to_K at 1. cbn [kt_set_factor kt_weights kt_factors].
-      unfold krank, kshape, to_K. cbn [kweights kfactors]. fold R. rewrite nrows_nth. fold kn mn.
-      rewrite (skipn_add data loc (Z.of_nat (mn * R))) by lia. rewrite Nat2Z.id.
-      f_equal. f_equal. unfold np_set. replace (k <? 0) with false by (symmetry; apply Z.ltb_ge; lia).
-      exact (upd_is_upd_nth (fun _ => unvec_factor 0 mn R (firstn (mn * R) (skipn (Z.to_nat loc) data))) [] (kt_factors s) kn Hkn).
+  induction ms as [|k ms IH]; intros n; cbn [H_needed py_needed]; [reflexivity|].
+  unfold H_need_step. unfold krank, kshape, to_K. cbn [kweights kfactors]. fold (to_K self).
+  unfold NpZ.mat, NpZ.vec, matrix in *.
+  destruct (k =? -1).
+  - cbn [bind]. unfold zlen. rewrite <- Nat2Z.inj_add. apply IH.
+  - change (zlen (kt_factors self)) with (Z.of_nat (length (kt_factors self))).
+    destruct (Z.leb_spec 0 k) as [H0|]; [|reflexivity].
+    destruct (Z.ltb_spec k (Z.of_nat (length (kt_factors self)))) as [H1|H1];
+      [try match goal with |- context [k <? ?y] => replace (k <? y) with true by (symmetry; apply Z.ltb_lt; exact H1) end
+      |try match goal with |- context [k <? ?y] => replace (k <? y) with false by (symmetry; apply Z.ltb_ge; exact H1) end; reflexivity].
+    cbn [andb bind].
+    replace (np_nrows (znth [] (kt_factors self) k)) with (Z.of_nat (nth (Z.to_nat k) (map (@nrows Z) (kt_factors self)) 0%nat)).
+    + unfold zlen. rewrite <- Nat2Z.inj_mul, <- Nat2Z.inj_add. apply IH.
+    + rewrite nrows_nth. rewrite <- (Z2Nat.id k) at 2 by lia. rewrite znth_nat. reflexivity.
 Qed.
 
-(* THE GENERATED update IS THE HAND MODEL *)
-Theorem gen_update_model (self k' : ktz) (modes data : vec) : (forall k, In k modes -> -1 <= k) ->
+(* ---------------------------------------------------------------- pass 2: the generated loop and the state machine's loop stop / finish together *)
+Lemma update_loop_state (data : vec) : forall (ms : vec) (s : ktz) (loc : nat),
+  (forall k, In k ms -> -1 <= k) ->
+  match H_update_loop data ms (s, Z.of_nat loc) with
+  | Ok st' => py_update_loop 0 ms data loc (to_K s) = (true, to_K (fst st'))
+  | Err => fst (py_update_loop 0 ms data loc (to_K s)) = false
+  end.
+Proof.
+  induction ms as [|k ms IH]; intros s loc Hms; cbn [H_update_loop py_update_loop]; [reflexivity|].
+  assert (Hk : -1 <= k) by (apply Hms; now left).
+  assert (Hms' : forall k, In k ms -> -1 <= k) by (intros; apply Hms; now right).
+  unfold H_update_step. cbn [fst snd]. cbv zeta.
+  change (krank (to_K s)) with (length (kt_weights s)). change (kfactors (to_K s)) with (kt_factors s).
+  change (kweights (to_K s)) with (kt_weights s).
+  set (R := length (kt_weights s)).
+  change (zlen (kt_weights s)) with (Z.of_nat R). change (zlen (kt_factors s)) with (Z.of_nat (length (kt_factors s))).
+  destruct (Z.eqb_spec k (-1)) as [E1|E1].
+  - (* the weights *)
+    destruct (Z.ltb_spec (zlen data) (Z.of_nat loc + Z.of_nat R)) as [Hlt|Hge];
+      destruct (Nat.ltb_spec (length data) (loc + R)) as [Hlt'|Hge']; unfold zlen in *; try lia; cbn [bind]; [reflexivity|].
+    rewrite chunk_firstn by (unfold zlen; lia). rewrite !Nat2Z.id. rewrite <- Nat2Z.inj_add.
+    exact (IH (kt_set_weights s (firstn R (skipn loc data))) (loc + R)%nat Hms').
+  - (* factor k >= 0 *)
+    assert (Hk0 : 0 <= k) by lia.
+    destruct (Z.ltb_spec k (Z.of_nat (length (kt_factors s)))) as [Hlt|Hnlt];
+      [try match goal with |- context [k <? ?y] => replace (k <? y) with true by (symmetry; apply Z.ltb_lt; exact Hlt) end
+      |try match goal with |- context [k <? ?y] => replace (k <? y) with false by (symmetry; apply Z.ltb_ge; exact Hnlt) end; reflexivity].
+    match goal with |- context [py_index ?n k] => replace (py_index n k) with (Some (Z.to_nat k)) by (symmetry; exact (py_index_nonneg _ k (conj Hk0 Hlt))) end.
+    replace (idx_ok (kt_factors s) k) with true by (symmetry; unfold idx_ok, zlen; apply andb_true_iff; split; [apply Z.leb_le|apply Z.ltb_lt]; lia).
+    set (kn := Z.to_nat k). assert (Hkn : (kn < length (kt_factors s))%nat) by lia.
+    assert (Ek : k = Z.of_nat kn) by (unfold kn; lia).
+    set (mn := length (nth kn (kt_factors s) [])).
+    assert (Hm : np_nrows (znth [] (kt_factors s) k) = Z.of_nat mn) by (rewrite Ek, znth_nat; reflexivity).
+    rewrite Hm. rewrite <- Nat2Z.inj_mul.
+    assert (Hm' : nth kn (kshape (to_K s)) 0%nat = mn) by (unfold kshape, to_K; cbn [kfactors]; apply nrows_nth).
+    rewrite Hm'.
+    destruct (Z.ltb_spec (zlen data) (Z.of_nat loc + Z.of_nat (mn * R))) as [Hlt2|Hge];
+      destruct (Nat.ltb_spec (length data) (loc + mn * R)) as [Hlt'|Hge']; unfold zlen in *; try lia; cbn [bind]; [reflexivity|].
+    rewrite chunk_firstn by (unfold zlen; lia). rewrite !Nat2Z.id.
+    replace (np_reshape2_ok (firstn (mn * R) (skipn loc data)) (Z.of_nat mn) (Z.of_nat R)) with true.
+    2:{ symmetry. unfold np_reshape2_ok, zlen. rewrite firstn_length, skipn_length.
+        apply andb_true_iff; split; [apply andb_true_iff; split; apply Z.leb_le; lia|apply Z.eqb_eq; lia]. }
+    rewrite reshapeF_unvec. rewrite <- Nat2Z.inj_add.
+    pose proof (IH (kt_set_factor s k (unvec_factor 0 mn R (firstn (mn * R) (skipn loc data)))) (loc + mn * R)%nat Hms') as G.
+    replace (to_K (kt_set_factor s k (unvec_factor 0 mn R (firstn (mn * R) (skipn loc data)))))
+      with (mkK (kt_weights s) (upd_nth kn (fun _ => unvec_factor 0 mn R (firstn (mn * R) (skipn loc data))) (kt_factors s))) in G.
+    + exact G.
+    + unfold to_K, kt_set_factor. cbn [kt_weights kt_factors]. f_equal.
+      unfold np_set. replace (k <? 0) with false by (symmetry; apply Z.ltb_ge; lia).
+      symmetry. exact (upd_is_upd_nth (fun _ => unvec_factor 0 mn R (firstn (mn * R) (skipn loc data))) [] (kt_factors s) kn Hkn).
+Qed.
+
+(* ---------------------------------------------------------------- THE GENERATED update IS THE STATE MACHINE *)
+Theorem gen_update_state (self : ktz) (modes data : vec) :
+  match ktensor_update self modes data with
+  | Ok k' => py_update 0 modes data (to_K self) = (true, to_K k')
+  | Err => py_update 0 modes data (to_K self) = (false, to_K self)
+  end.
+Proof.
+  rewrite update_bridge. unfold H_update, py_update. rewrite asc_is_strict.
+  destruct (py_strict_asc modes); [|reflexivity].
+  change 0 with (Z.of_nat 0) at 1. rewrite needed_model. unfold py_validate.
+  destruct (py_needed (to_K self) modes 0) as [tot|] eqn:EN; cbn [bind]; [|reflexivity].
+  destruct (Z.ltb_spec (zlen data) (Z.of_nat tot)) as [Hlt|Hge]; destruct (Nat.leb_spec tot (length data)) as [Hle|Hgt];
+    unfold zlen in *; try lia; [reflexivity|].
+  assert (Hms : forall k, In k modes -> -1 <= k) by (intros k Hk; destruct (py_needed_modes Z (to_K self) modes 0%nat tot EN k Hk); lia).
+  pose proof (update_loop_state data modes self 0%nat Hms) as G. change (Z.of_nat 0) with 0 in G.
+  pose proof (py_update_loop_after_validate Z 0 data modes (to_K self) (to_K self) 0%nat tot eq_refl eq_refl EN Hle) as A.
+  destruct (H_update_loop data modes (self, 0)) as [st'|]; cbn [bind]; [exact G|].
+  rewrite A in G. discriminate.
+Qed.
+
+(* Err exactly on the rejected requests (where the receiver stays as it was), Ok exactly on the accepted ones *)
+Theorem gen_update_rejects_iff (self : ktz) (modes data : vec) :
+  ktensor_update self modes data = Err <-> py_strict_asc modes && py_validate (to_K self) modes data = false.
+Proof.
+  pose proof (gen_update_state self modes data) as G. rewrite <- (py_update_accepts_iff Z 0 modes data (to_K self)).
+  destruct (ktensor_update self modes data) as [k'|]; rewrite G; cbn [fst]; split; intros; congruence.
+Qed.
+
+(* THE GENERATED update COMPUTES THE HAND MODEL — no hypothesis on the modes any more: pass 1 refuses every mode below -1 *)
+Theorem gen_update_model (self k' : ktz) (modes data : vec) :
   ktensor_update self modes data = Ok k' ->
   to_K k' = k_update 0 (map mopt modes) data (to_K self).
 Proof.
-  intros Hms E. rewrite update_bridge in E. unfold H_update in E. destruct (asc modes); [|discriminate].
-  destruct (H_update_loop data modes (self, 0)) as [st'|] eqn:EL; [|discriminate]. cbn [bind] in E. injection E as <-.
-  apply (update_loop_model data modes self 0 st' Hms); [pose proof (zlen_nonneg data); lia|exact EL].
+  intros E. pose proof (gen_update_state self modes data) as G. rewrite E in G.
+  pose proof (py_update_accepted_model Z 0 modes data (to_K self)) as M. rewrite G in M. cbn [fst snd] in M. now apply M.
 Qed.
 
-(* update with ALL modes, weights first (modes = [-1, 0, ..., ndims-1]), as generated = from_vector of the data *)
-Lemma mopt_all (N : nat) : map mopt (-1 :: np_arange 0 (Z.of_nat N)) = None :: map Some (seq 0 N).
+(* update with ALL modes, weights first (modes = [-1, 0, ..., ndims-1]) and exactly R * (sum(shape) + 1) numbers: the generated code
+   ACCEPTS, and the receiver becomes from_vector of the data *)
+Lemma all_modes_arange (N : nat) : -1 :: np_arange 0 (Z.of_nat N) = all_modes N.
+Proof. unfold all_modes. now rewrite np_arange_0. Qed.
+
+Theorem gen_update_all_modes_accepted (self : ktz) (data : vec) :
+  length data = (krank (to_K self) * (sum_nat (kshape (to_K self)) + 1))%nat ->
+  exists k', ktensor_update self (-1 :: np_arange 0 (zlen (kt_factors self))) data = Ok k' /\
+             to_K k' = k_from_vector 0 1 data (kshape (to_K self)) true.
 Proof.
-  cbn [map]. f_equal. rewrite np_arange_0, map_map. apply map_ext. intros j. unfold mopt.
-  destruct (Z.eqb_spec (Z.of_nat j) (-1)); [lia|]. now rewrite Nat2Z.id.
+  intros Hlen. unfold zlen. rewrite all_modes_arange.
+  pose proof (gen_update_state self (all_modes (length (kt_factors self))) data) as G.
+  pose proof (py_update_all_modes Z 0 1 (to_K self) data Hlen) as A. cbn [to_K kfactors] in A.
+  destruct (ktensor_update self (all_modes (length (kt_factors self))) data) as [k'|].
+  - exists k'. split; [reflexivity|]. exact (f_equal snd (eq_trans (eq_sym G) A)).
+  - pose proof (eq_trans (eq_sym G) A) as E. discriminate E.
 Qed.
 
 Theorem gen_update_all_modes (self k' : ktz) (data : vec) :
@@ -95,20 +163,21 @@ Theorem gen_update_all_modes (self k' : ktz) (data : vec) :
   length data = (krank (to_K self) * (sum_nat (kshape (to_K self)) + 1))%nat ->
   to_K k' = k_from_vector 0 1 data (kshape (to_K self)) true.
 Proof.
-  intros E Hlen.
-  assert (Hms : forall k, In k (-1 :: np_arange 0 (zlen (kt_factors self))) -> -1 <= k).
-  { intros k Hk. destruct Hk as [<-|Hk]; [lia|]. unfold np_arange in Hk. apply in_map_iff in Hk as (j & <- & _). lia. }
-  rewrite (gen_update_model self k' _ data Hms E).
-  unfold zlen. rewrite mopt_all. exact (update_all_modes Z 0 1 (to_K self) data Hlen).
+  intros E Hlen. destruct (gen_update_all_modes_accepted self data Hlen) as (k2 & E2 & H2). rewrite E in E2. now injection E2 as ->.
 Qed.
 
 (* the modes that are not named keep their weights / factors (frame), for the generated update *)
-Theorem gen_update_frame (self k' : ktz) (modes data : vec) : (forall k, In k modes -> -1 <= k) ->
+Theorem gen_update_frame (self k' : ktz) (modes data : vec) :
   ktensor_update self modes data = Ok k' ->
   (~ In (-1) modes -> kt_weights k' = kt_weights self) /\
   (forall j : nat, ~ In (Z.of_nat j) modes -> nth j (kt_factors k') [] = nth j (kt_factors self) []).
 Proof.
-  intros Hms E. pose proof (gen_update_model self k' modes data Hms E) as HK.
+  intros E. pose proof (gen_update_model self k' modes data E) as HK.
+  assert (Hms : forall k, In k modes -> -1 <= k).
+  { intros k Hk. pose proof (gen_update_state self modes data) as G. rewrite E in G.
+    pose proof (py_update_accepts_iff Z 0 modes data (to_K self)) as A. rewrite G in A. cbn [fst] in A. symmetry in A.
+    apply andb_true_iff in A as [_ A]. unfold py_validate in A. destruct (py_needed (to_K self) modes 0) as [tot|] eqn:EN; [|discriminate].
+    destruct (py_needed_modes Z (to_K self) modes 0%nat tot EN k Hk); lia. }
   destruct (update_frame Z 0 (map mopt modes) data (to_K self)) as [F1 F2]. split.
   - intros Hn. change (kt_weights k') with (kweights (to_K k')). rewrite HK. apply F1.
     intros HIn. apply in_map_iff in HIn as (k & Hk & HkIn). unfold mopt in Hk. destruct (Z.eqb_spec k (-1)); [subst; contradiction|discriminate].
@@ -116,3 +185,11 @@ Proof.
     intros HIn. apply in_map_iff in HIn as (k & Hk & HkIn). unfold mopt in Hk. destruct (Z.eqb_spec k (-1)); [discriminate|].
     injection Hk as Hk. apply Hn. replace (Z.of_nat j) with k; [exact HkIn|]. specialize (Hms k HkIn). lia.
 Qed.
+
+(* used by the correspondence cases (op update_req): the GENERATED update evaluated on the same literal request as pyttb —
+   Ok with pyttb's receiver when pyttb accepted, Err when pyttb raised *)
+Definition zk_gen_update_agrees (ms data : vec) (K O : ktensor Z) (accepted : bool) : bool :=
+  match ktensor_update (mkkt (kweights K) (kfactors K)) ms data with
+  | Ok k' => accepted && zk_eqb (to_K k') O
+  | Err => negb accepted
+  end.
